@@ -41,6 +41,15 @@ func newTraversal(variable string) traversal {
 	}
 }
 
+// clone copies the accumulated slices: the same traversal is handed to every alternative of an OR path, and
+// appending in place would let one alternative overwrite the code of another through the shared backing array
+func (t traversal) clone() traversal {
+	t.rego = append([]string{}, t.rego...)
+	t.pathVariables = append([]string{}, t.pathVariables...)
+	t.paths = append([]string{}, t.paths...)
+	return t
+}
+
 func internalResultToTraversal(p traversal, r regoPathResultInternal) traversal {
 	return traversal{
 		variable:      p.variable,
@@ -210,6 +219,7 @@ func traverseProperty(property path.Property, t traversal, fetchNodes bool, iriE
 // Traverses the leaf components of the path expression, always a property.
 // TODO: We don't take into transitive paths yet.
 func traverseRegularProperty(property path.Property, t traversal, fetchNodes bool, iriExpander *misc.IriExpander) []regoPathResultInternal {
+	t = t.clone()
 
 	propertyIri, err := property.Expanded(iriExpander)
 
@@ -258,6 +268,7 @@ func traverseRegularProperty(property path.Property, t traversal, fetchNodes boo
 }
 
 func traverseCustomProperty(property path.Property, t traversal, fetchNodes bool, iriExpander *misc.IriExpander) []regoPathResultInternal {
+	t = t.clone()
 	customPropertyName, err := property.CustomName(iriExpander)
 	if err != nil {
 		panic(err)
